@@ -1,6 +1,6 @@
 (* Iterator engine: case formats of C25 / C26, model-vs-observed agreement, the executable
    specification of the two properties (written against the property text, not against the mirror
-   model), the known-finding classifiers (predicates on the input) and the reports. *)
+   model), and the reports (no known-finding class: D12 / D13 are repaired). *)
 From Coq Require Import List NArith Bool.
 Import ListNotations.
 From Orca Require Import Util Iter.
@@ -91,68 +91,9 @@ Definition domain26 (c : ccase) : bool :=
   negb (nilb (cc_metas c)) && forallb wf_meta (cc_metas c) && Nat.eqb (length (cc_skips c)) (length (cc_metas c)).
 
 (* ------------------------------------------------------------------------------------------ *)
-(* Known findings, as predicates on the input. *)
-
-(* D12 on one module: no local function; every local function skipped; the first local function is
-   skipped and the first unskipped one has a different number of instructions (it is walked with
-   function 0's length). *)
-Definition d12_mod (mt : meta) (skip : list N) : bool :=
-  match mt with
-  | [] => true
-  | (_, n0) :: _ =>
-      match find (fun fn => negb (skipped skip (fst fn))) mt with
-      | None => true
-      | Some (_, n) => negb (N.eqb n n0)
-      end
-  end.
-(* D12, fourth shape: the last local function is skipped -- curr_loc() after the traversal has ended panics *)
-Definition last_skipped (mt : meta) (skip : list N) : bool :=
-  match mt with [] => false | _ => skipped skip (fst (last mt (0, 0))) end.
-
-Definition known_D12 (mt : meta) (skip : list N) (probe : bool) : bool :=
-  d12_mod mt skip || (probe && last_skipped mt skip).
-
-(* per module *)
-Fixpoint any_mod (p : meta -> list N -> bool) (metas : list meta) (skips : list (list N)) : bool :=
-  match metas with
-  | [] => false
-  | mt :: r => p mt (hd [] skips) || any_mod p r (tl skips)
-  end.
-(* some module other than the last satisfies p *)
-Fixpoint any_nonlast (p : meta -> list N -> bool) (metas : list meta) (skips : list (list N)) : bool :=
-  match metas with
-  | [] | [_] => false
-  | mt :: r => p mt (hd [] skips) || any_nonlast p r (tl skips)
-  end.
-Fixpoint nlist_eqb (a b : list N) : bool :=
-  match a, b with
-  | [], [] => true
-  | x :: a', y :: b' => N.eqb x y && nlist_eqb a' b'
-  | _, _ => false
-  end.
-
-(* D12 seen through the component iterator: some module has one of the D12 shapes; the after-end
-   curr_loc() reads the last module's cursor *)
-Definition known_D12_comp (metas : list meta) (skips : list (list N)) (probe : bool) : bool :=
-  any_mod d12_mod metas skips
-  || (probe && last_skipped (last metas []) (nth (pred (length metas)) skips [])).
-
-(* D13: a module other than the last whose last local function is skipped (the traversal stops there
-   for good); a module without local functions (next()/new() panics); reset() when the skip lists of
-   the modules are not all the same list (the module cursor keeps the skip list of the module it was in) *)
-Definition known_D13 (metas : list meta) (skips : list (list N)) (k : option nat) : bool :=
-  any_nonlast last_skipped metas skips
-  || any_mod (fun mt _ => nilb mt) metas skips
-  || (match k with
-      | Some _ => negb (forallb (nlist_eqb (hd [] skips)) skips)
-      | None => false
-      end).
-
-Definition known25 (c : mcase) : list N :=
-  if known_D12 (mc_meta c) (mc_skip c) (mc_probe c) then [12] else [].
-Definition known26 (c : ccase) : list N :=
-  (if known_D12_comp (cc_metas c) (cc_skips c) (cc_probe c) then [12] else [])
-  ++ (if known_D13 (cc_metas c) (cc_skips c) (cc_k c) then [13] else []).
+(* No known finding: D12 and D13 are repaired; every failing case is a violation. *)
+Definition known25 (c : mcase) : list N := [].
+Definition known26 (c : ccase) : list N := [].
 
 Definition verdict25 (c : mcase) : verdict := (agree25 c, domain25 c, holds25 c, known25 c).
 Definition verdict26 (c : ccase) : verdict := (agree26 c, domain26 c, holds26 c, known26 c).
